@@ -23,6 +23,9 @@ def run(rep, idx, tier):
     rep.require("C11.4", 3)
     rep.require("C11.5", 3)
     rep.require("C11.6", 5)
+    rep.require("C11.7", 1)
+    from .c19 import shared_state
+    shared_state(rep, idx, rule="C11.7", classes=["Register", "Field", "FieldActionMap", "FieldActionArray", "FieldAction"])
     c = get_ctx(idx, "Register.elaborate")
     rep.analysed(c.fi.site)
     rep.count("drivers", len(c.t.drivers))
